@@ -108,6 +108,13 @@ def emptyjoin(run, p, sh):
             par = parents.get(id(j))
             fallback = isinstance(par, ast.BoolOp) and isinstance(par.op, ast.Or) and par.values[0] is j and \
                 any(isinstance(v, ast.Constant) and v.value for v in par.values[1:])
+            if not fallback and isinstance(par, ast.Assign) and len(par.targets) == 1 and isinstance(par.targets[0], ast.Name):
+                # the joined text is named first: every use of the name must carry the fallback
+                nm = par.targets[0].id
+                uses = [x for x in ast.walk(f.node) if isinstance(x, ast.Name) and x.id == nm and isinstance(x.ctx, ast.Load)]
+                fallback = bool(uses) and all(
+                    isinstance(parents.get(id(u)), ast.BoolOp) and isinstance(parents[id(u)].op, ast.Or) and parents[id(u)].values[0] is u
+                    and any(isinstance(v, ast.Constant) and v.value for v in parents[id(u)].values[1:]) for u in uses)
             src = names_in(j.args[0]) if j.args else set()
             clo = dep_closure(f.node, src)
             params = clo & set(f.params)
